@@ -868,6 +868,17 @@ def _r1(ctx):
                 or any(y == SYM for x in lv for y in walk(x))
             # (a bare rateexpr() of an element the rule did not trace to this position is the rule's failure, not a wrong piece)
             bare_stray = all((isinstance(x, tuple) and len(x) == 5 and x[0] == "meth" and x[2] == "rateexpr" and (x[1] == r or (x[1][0] in ("elem", "bv") and stray(x[1])))) for x in lv)
+            # understood and wrong whatever the values are: a table KEYED BY THE REACTION OBJECTS (`{reac: .. for reac in reactions}[reac]`).
+            # Reaction defines __eq__/__hash__ over reactants, products, window and type (C15's contract) -- not the coefficients -- so two
+            # entries of the network that compare equal share one slot and one of them is assigned the other's expression
+            keyed = [y for x in lv for y in walk(x) if isinstance(y, tuple) and len(y) == 3 and y[0] == "sub" and isinstance(y[1], tuple) and len(y[1]) == 4
+                     and y[1][0] == "comp" and y[1][1] == "dict" and len(y[1][3]) == 1 and y[1][2][0] == "tuple" and y[1][2][1][0] == y[1][3][0][0]
+                     and y[1][3][0][0][0] == "bv" and isinstance(y[2], tuple) and y[2][0] in ("elem", "bv") and y[2][1:2] == (y[1][3][0][1],)]
+            if keyed and any(m_ in pkg.cls("Reaction").methods for m_ in ("__eq__", "__hash__")):
+                probs.append("rate expression is looked up in a table keyed by the reaction objects: reactions that compare equal (Reaction.__eq__ ignores the "
+                             "coefficients) share one entry, so one of them is assigned the other's rate expression")
+                ctx.check(False, "R1", key, (FILE, rets[0].line), "; ".join(probs), found=lw.text)
+                continue
             (probs if seen_rate and not bare_stray else unread).append(f"rate expression is {show(e)[:80]}, not rateexpr() of the same reaction")
         if unread and not probs:
             ctx.unrec("R1", key, (FILE, rets[0].line), "cannot read a piece of the generated statement: " + "; ".join(unread)[:200])
